@@ -29,6 +29,10 @@ pub struct Editor {
     /// Unspecified corner, measured on the implementation: Ctrl+Right from a word that is followed
     /// only by white space stops on that white space (true) or goes to the end of the line (false).
     pub w_stops_at_trailing_space: bool,
+    /// Unspecified corner, measured on the implementation: Enter on a focused history entry that
+    /// is blank (only possible with a history file written by something else) submits it (true)
+    /// or is refused like a blank new line (false).
+    pub blank_history_submits: bool,
 }
 
 #[derive(Clone, Copy, PartialEq, Eq)]
@@ -126,9 +130,10 @@ impl Editor {
             Key::Enter => {
                 let focused_new = self.index >= self.history.len();
                 let line: String = self.current().into_iter().collect();
-                if focused_new && line.trim().is_empty() {
+                if line.trim().is_empty() && (focused_new || !self.blank_history_submits) {
                     self.next.clear();
                     self.cursor = 0;
+                    self.index = self.history.len();
                     return None;
                 }
                 if self.history.last() != Some(&line) {
